@@ -6,7 +6,8 @@
   Events (what an observer counts): an `add_order` call returns; a cancel returns its order; a
   transaction is created (quantity `q`, maker price `p`: executed quantity `q`, value `q·p`).
 -/
-import PLV.Lemmas.ConcGlobal
+import PLV.Lemmas.ConcInit
+import PLV.Lemmas.Stats
 
 namespace PLV.Conc
 open PLV
@@ -190,7 +191,7 @@ theorem SInv.step {s0 : Stats} {c : Cfg} {E : Ev} (h : SInv s0 c E) (i : Nat) :
       simp only [a1, a2, a3] at s1 s2 s3
       rw [n1] at l1; rw [n2] at l3; rw [n3] at l4
       have h1 := h.added; have h2 := h.removed; have h3 := h.qty; have h4 := h.value
-      refine ⟨?_, ?_, ?_, ?_⟩ <;> (simp only [Ev.plus]; dsimp only; simp only [W] at *; omega)
+      refine ⟨?_, ?_, ?_, ?_⟩ <;> (simp only [Ev.plus]; (try dsimp only); simp only [W] at *; omega)
 
 theorem SInv.run {s0 : Stats} (sched : List Nat) : ∀ {c : Cfg} {E : Ev}, SInv s0 c E →
     SInv s0 (Conc.run c sched) (E.plus (runEv c sched)) := by
@@ -200,5 +201,62 @@ theorem SInv.run {s0 : Stats} (sched : List Nat) : ∀ {c : Cfg} {E : Ev}, SInv 
     intro c E h
     have := ih (h.step i)
     simpa [Conc.run, runEv, Ev.plus, Nat.add_assoc] using this
+
+
+/-- the counters stay 64-bit values: every update is a wrapping add -/
+theorem tstep_statsOk (s : Shared) (pc : Pc) (h : StatsOk s.stats) : StatsOk (tstep s pc).1.stats := by
+  have hw : 0 < W := by simp [W]
+  cases pc
+  case can0 id => simp only [tstep]; split <;> exact h
+  case am0 id n => simp only [tstep]; split <;> exact h
+  case am1 id n => simp only [tstep]; split <;> exact h
+  case amV o1 new => simp only [tstep]; split <;> exact h
+  case amH o1 new => simp only [tstep]; split <;> exact h
+  case mPop L => simp only [tstep]; split <;> exact h
+  case mRm L t => simp only [tstep]; split <;> exact h
+  case add3 o => exact ⟨Nat.mod_lt _ hw, h.r, h.q, h.v⟩
+  case can4 o => exact ⟨h.a, Nat.mod_lt _ hw, h.q, h.v⟩
+  case mSt1 L o => exact ⟨h.a, h.r, h.q, h.v⟩
+  case mSt2 L o => exact ⟨h.a, h.r, Nat.mod_lt _ hw, h.v⟩
+  case mSt3 L o => exact ⟨h.a, h.r, h.q, Nat.mod_lt _ hw⟩
+  all_goals exact h
+
+theorem statsOk_step {c : Cfg} (h : StatsOk c.sh.stats) (i : Nat) : StatsOk (Conc.step c i).1.sh.stats := by
+  unfold Conc.step
+  cases c.ts[i]? with
+  | none => exact h
+  | some t =>
+    simp only
+    cases t.norm with
+    | none => exact h
+    | some tn => exact tstep_statsOk c.sh tn.pc h
+
+theorem statsOk_run (sched : List Nat) : ∀ {c : Cfg}, StatsOk c.sh.stats → StatsOk (Conc.run c sched).sh.stats := by
+  induction sched with
+  | nil => intro c h; exact h
+  | cons i rest ih => intro c h; exact ih (statsOk_step h i)
+
+theorem sinv_init (l : Level) (g : Nat) (progs : List (List COp)) : SInv l.stats (Cfg.init l g progs) {} := by
+  have hidle : ∀ t ∈ progs.map (fun ops => ({ todo := ops } : Thread)), t.pc = .idle := by
+    intro t ht; obtain ⟨ops, _, rfl⟩ := List.mem_map.1 ht; rfl
+  have z1 : sumT (fun t => owedA t.pc) (progs.map (fun ops => ({ todo := ops } : Thread))) = 0 :=
+    sumT_zero _ (fun t ht => by rw [hidle t ht]; rfl)
+  have z2 : sumT (fun t => dueQ t.pc) (progs.map (fun ops => ({ todo := ops } : Thread))) = 0 :=
+    sumT_zero _ (fun t ht => by rw [hidle t ht]; rfl)
+  have z3 : sumT (fun t => dueV t.pc) (progs.map (fun ops => ({ todo := ops } : Thread))) = 0 :=
+    sumT_zero _ (fun t ht => by rw [hidle t ht]; rfl)
+  refine ⟨?_, ?_, ?_, ?_⟩ <;> simp [Cfg.init, Shared.ofLevel, z1, z2, z3]
+
+theorem done_stats {c : Cfg} (hd : allDone c = true) :
+    sumT (fun t => owedA t.pc) c.ts = 0 ∧ sumT (fun t => dueQ t.pc) c.ts = 0 ∧ sumT (fun t => dueV t.pc) c.ts = 0 := by
+  have hidle : ∀ t ∈ c.ts, t.pc = .idle := by
+    intro t ht
+    have := List.all_eq_true.1 hd t ht
+    unfold Thread.finished at this
+    split at this
+    · rename_i h1 _; exact h1
+    · simp at this
+  exact ⟨sumT_zero _ (fun t ht => by rw [hidle t ht]; rfl), sumT_zero _ (fun t ht => by rw [hidle t ht]; rfl),
+    sumT_zero _ (fun t ht => by rw [hidle t ht]; rfl)⟩
 
 end PLV.Conc
